@@ -1,4 +1,5 @@
-(** C13 — R12 (continued): `name` on a field that Debug shows positionally. *)
+(** C13 — R12 (continued): `name` (the parameter, or the shorthand `Debug = name`) on a field that
+    Debug shows positionally. *)
 From Educe.Proofs Require Export P_C13j.
 Import Expand_Debug.
 
@@ -113,15 +114,29 @@ Proof.
   rewrite (param_is_key _ _ "method" H3); [reflexivity|canon_names].
 Qed.
 
+(** ... and the shorthand `Debug = v` is read as a boolean only: an identifier or a string (a
+    name) is refused *)
+Lemma debug_field_no_shorthand b c m x :
+  build_dfattr false b c m = Ok x -> name_shorthand m = false.
+Proof.
+  intros H. unfold build_dfattr in H. destruct m as [p|p v|p dl ts]; [reflexivity| |reflexivity].
+  cbn [name_shorthand]. destruct b; [|discriminate H]. inv_bind H.
+  unfold meta_name_value_2_bool in Hb. unfold bool_value.
+  destruct v as [t| | | |]; try discriminate Hb.
+  destruct (is_bool_tok t); [reflexivity|discriminate Hb].
+Qed.
+
 Lemma debug_fields_no_name F traits fs l :
   debug_field_attrs F traits false fs = Ok l -> existsb (has_name_param F) fs = false.
 Proof.
   intros H. unfold debug_field_attrs in H. inv_bind H. apply existsb_false. intros f Hf.
   destruct (mapM_In_ok _ _ _ _ Hb Hf) as [y Hy]. inv_bind Hy. unfold debug_field_attr in Hb0. inv_bind Hb0.
-  apply scanned_single in Hb1. unfold has_name_param. rewrite (existsb_filter (names F TDebug)).
+  apply scanned_single in Hb1. unfold has_name_param.
+  rewrite (existsb_filter (names F TDebug)).
   fold (metas_of F TDebug (educe_metas (f_attrs f))).
   destruct (metas_of F TDebug (educe_metas (f_attrs f))) as [|m [|m2 r]]; [reflexivity| |destruct Hb1].
-  destruct Hb1 as [x [Hx _]]. cbn [existsb]. rewrite (debug_field_no_name _ _ _ _ Hx). reflexivity.
+  destruct Hb1 as [x [Hx _]]. cbn [existsb].
+  rewrite (debug_field_no_name _ _ _ _ Hx), (debug_field_no_shorthand _ _ _ _ Hx). reflexivity.
 Qed.
 
 Lemma name_on_positional_handler F traits d m l :
